@@ -615,17 +615,24 @@ fn main() {
             eprintln!("MACHINERY: replay case is outside the domain of C17: {}", e);
             std::process::exit(3);
         }
-        let a = check_case(&case).0;
-        let b = check_case(&case).0;
-        if a != b {
-            eprintln!("MACHINERY: replay not deterministic: {:?} vs {:?}", a, b);
-            std::process::exit(3);
+        // The harness side of a case is deterministic; the only nondeterminism left is lopdf's own
+        // HashMap iteration order, which the property says must not matter. The case is therefore
+        // executed several times: any failing execution is a failure of the case.
+        let mut results: Vec<Result<(), String>> = (0..2).map(|_| check_case(&case).0).collect();
+        // 64 further constructions (each with freshly seeded HashMaps) must give one digest
+        let digests: BTreeSet<u64> = (0..64).filter_map(|_| execute(&case, false).ok().map(|o| o.digest)).collect();
+        results.push(if digests.len() > 1 {
+            Err(format!("64 further executions of the same case give {} different documents (digests {:016x?})", digests.len(), digests))
+        } else {
+            Ok(())
+        });
+        let fails: Vec<&String> = results.iter().filter_map(|r| r.as_ref().err()).collect();
+        match fails.first() {
+            Some(m) if fails.len() == results.len() => println!("observed: {}", m),
+            Some(m) => println!("observed: verdict varies between executions of the same case ({} of {} fail), first failure: {}", fails.len(), results.len(), m),
+            None => println!("observed: well-formed outline, table of contents reads back ({} bookmarks, shape {})", case.ins.len(), case.shape()),
         }
-        match &a {
-            Err(m) => println!("observed: {}", m),
-            Ok(()) => println!("observed: well-formed outline, table of contents reads back ({} bookmarks, shape {})", case.ins.len(), case.shape()),
-        }
-        run.finish_replay(a.is_err());
+        run.finish_replay(!fails.is_empty());
     }
     let nmax = if run.thorough { 4 } else { 3 };
     run.rule(&format!(
@@ -653,13 +660,11 @@ fn main() {
         cases.extend(c);
     }
     let bound_cases = cases.len();
-    let mut slice = 0usize;
     if !run.thorough {
         let r = (run.seed % 97) as usize;
         let mut dummy = (0u64, 0u64);
         let extra: Vec<Case> = cases_for(4, &mut dummy).into_iter().enumerate().filter(|(i, _)| i % 97 == r).map(|x| x.1).collect();
-        slice = extra.len();
-        run.set("seed_slice", json!(format!("n=4 cases with index mod 97 == {}: {} cases (supplementary, not part of the quick bound)", r, slice)));
+        run.set("seed_slice", json!(format!("n=4 cases with index mod 97 == {}: {} cases (supplementary, not part of the quick bound)", r, extra.len())));
         cases.extend(extra);
     }
     run.set("forests", json!(counters.0));
@@ -714,7 +719,6 @@ fn main() {
         run.sample(c.to_json());
     }
     run.sample(cases[bound_cases - 1].to_json());
-    let _ = slice;
     run.exhaustive(true);
     run.finish();
 }
